@@ -932,3 +932,57 @@ func (r *RefFS) FileData(p string) ([]byte, bool) {
 }
 
 var _ absfs.SymlinkFileSystem = (*RefFS)(nil)
+
+// Clone returns a deep copy of the tree (no instrumentation, log off): used as the POSIX shadow by oracles.
+func (r *RefFS) Clone() *RefFS {
+	r.mu.Lock()
+	defer r.mu.Unlock()
+	c := &RefFS{nextIno: r.nextIno, tick: r.tick, maxSize: r.maxSize, logOn: false}
+	var cp func(n *rnode) *rnode
+	cp = func(n *rnode) *rnode {
+		m := *n
+		m.data = append([]byte(nil), n.data...)
+		m.durable = append([]byte(nil), n.durable...)
+		if n.children != nil {
+			m.children = map[string]*rnode{}
+			for k, v := range n.children {
+				m.children[k] = cp(v)
+			}
+		}
+		return &m
+	}
+	c.root = cp(r.root)
+	return c
+}
+
+// TreeSig renders names, kinds, file contents and link targets only (no modes, owners or times).
+func (r *RefFS) TreeSig() string {
+	r.mu.Lock()
+	defer r.mu.Unlock()
+	var sb strings.Builder
+	var rec func(p string, n *rnode)
+	rec = func(p string, n *rnode) {
+		switch n.kind {
+		case kDir:
+			fmt.Fprintf(&sb, "d:%s;", p)
+			names := make([]string, 0, len(n.children))
+			for k := range n.children {
+				names = append(names, k)
+			}
+			sort.Strings(names)
+			for _, k := range names {
+				cp := p + "/" + k
+				if p == "/" {
+					cp = "/" + k
+				}
+				rec(cp, n.children[k])
+			}
+		case kFile:
+			fmt.Fprintf(&sb, "f:%s:%s;", p, hx(n.data))
+		case kLink:
+			fmt.Fprintf(&sb, "l:%s:%s;", p, n.target)
+		}
+	}
+	rec("/", r.root)
+	return sb.String()
+}
